@@ -583,7 +583,7 @@ func c36(c *vc.Ctx) {
 		"Phase shebang: file f / f.sh = shebang line + body, alone in a tree; lines generated from the documented grammar `#!` blanks /bin/|/usr/bin/ [env blanks] shell: blanks after `#!` = 0..%d spaces, a tab, space+tab (line lengths 9..46 bytes, on both sides of any fixed probe size); quick: (/bin/, no env) and (/usr/bin/, `env `) x shells %v and non-shells %v x line end \\n x body multi (body bats too for bash and bats), plus /usr/local/bin/, `env -S `, `envbash` neighbours; thorough: /bin/,/usr/bin/ x {no env, `env `, `env  `, `env\\t`} x all eight names x both bodies, and line ends ` -e\\n`, \\r\\n for <=1 blank. Bodies %v tell all five languages apart by status and bytes (verified at start). Judged: `shfmt f` = `shfmt --filename f <f` = `shfmt -ln=<language of the shebang's shell> --filename f <f` (bytes, status); `shfmt -l .` considers the extension-less file iff the grammar finds a shell. "+
 		"Phase hetero: directories a and b with DIFFERENT EditorConfig settings (ordered pairs; quick: %s; thorough: also all ordered pairs of distinct quick flag sets), laid out as sections [a/**] and [b/**] of one root file or as nested a/.editorconfig and b/.editorconfig, passed as explicit files and as directories; trees: {a/tab a/bashism b/tab b/bashism} (both settings-sensitive kinds under both settings in one run), thorough also every ordered pair of kinds (one file in a, one in b) under the quick pairs; every file must come out exactly as when formatted alone under the settings in force for it (-l, -d, -w, -l as in phase tree). "+
 		"Phase single: per (kind, flag set): `shfmt F f` = `shfmt F --filename f <f` (bytes, status) and flags = EditorConfig. "+
-		"Phase tree: all multisets of 1..%d kinds (listed in kind order, file i named f<i><ext>) x all placements in directories a/b with the first file in a, each flag set given once as command-line flags (next to a decoy .editorconfig with conflicting settings when non-empty) and once as the equivalent single-section .editorconfig, each tree passed once as explicit file arguments and once as its directories: -l lists exactly D = {f considered : formatted(f) != f}, -d holds one diff per member of D which applied to f gives formatted(f), status 1 iff D or a parse error, parse errors only on stderr; -w rewrites exactly D and leaves nothing else; -l afterwards prints nothing; all four agree between flags and EditorConfig. Order: shebang lines with <=3 blanks interleaved 2:1 with the hetero quick pairs, rest of the shebang sweep, single, rest of hetero, tree. distinct = (D, parse-error set, skipped set) patterns per settings and invocation; per shebang (line length, shell, extension, body, considered, error)",
+		"Phase tree: all multisets of 1..%d kinds (listed in kind order, file i named f<i><ext>) x all placements in directories a/b with the first file in a, each flag set given once as command-line flags (next to a decoy .editorconfig with conflicting settings when non-empty) and once as the equivalent single-section .editorconfig, each tree passed once as explicit file arguments and once as its directories: -l lists exactly D = {f considered : formatted(f) != f}, -d holds one diff per member of D which applied to f gives formatted(f), status 1 iff D or a parse error, parse errors only on stderr; -w rewrites exactly D and leaves nothing else; -l afterwards prints nothing; all four agree between flags and EditorConfig. Order: shebang lines with <=3 blanks interleaved 2:1 with the hetero quick pairs, rest of the quick shebang sweep, single, trees of 1..2 files, then (thorough) rest of shebang, rest of hetero, trees of 3..4 files. distinct = (D, parse-error set, skipped set) patterns per settings and invocation; per shebang (line length, shell, extension, body, considered, error)",
 		kindNames, strings.Join(setNames, " "), c36MaxBlank, c36ShebangShells, c36NotShells, []string{c36Bodies[0].Name, c36Bodies[1].Name}, strings.Join(pairNames, " "), maxFiles)
 	c.Assumptions = []string{
 		"formatted(f) is what `shfmt <options> f` prints for the file alone in a directory (with the options as flags, or as a single-section .editorconfig)",
@@ -991,7 +991,16 @@ func c36(c *vc.Ctx) {
 		// 9..25 bytes), interleaved two to one with
 		// 2. the four-file tree with both settings-sensitive kinds in both
 		// directories x the quick pairs of per-directory settings
-		short := func(sc c36ShebangCase) bool { return len(sc.Spell.Blank) <= 3 }
+		// (the thorough list of shebang cases starts with the quick list)
+		quickShebang := len(c36ShebangSpace(true))
+		inQuick := map[string]bool{}
+		for _, sc := range shebangCases[:quickShebang] {
+			inQuick[fmt.Sprintf("%q|%s|%d", sc.Spell.line(), sc.Ext, sc.Body)] = true
+		}
+		isQuick := func(sc c36ShebangCase) bool {
+			return inQuick[fmt.Sprintf("%q|%s|%d", sc.Spell.line(), sc.Ext, sc.Body)]
+		}
+		short := func(sc c36ShebangCase) bool { return len(sc.Spell.Blank) <= 3 && isQuick(sc) }
 		tab, bashism := kindIndex["tab"], kindIndex["bashism"]
 		four := []c36File{{tab, "a"}, {bashism, "a"}, {tab, "b"}, {bashism, "b"}}
 		sh, he := shebang(short), hetero(four, heteroQuick)
@@ -1005,33 +1014,18 @@ func c36(c *vc.Ctx) {
 				he = he[1:]
 			}
 		}
-		// 3. the rest of the shebang sweep
-		for _, t := range shebang(func(sc c36ShebangCase) bool { return !short(sc) }) {
+		// 3. the rest of the quick tier's shebang sweep
+		for _, t := range shebang(func(sc c36ShebangCase) bool { return !short(sc) && isQuick(sc) }) {
 			emit(t)
 		}
+		// 4. single files, 5. trees of one or two files
 		for _, set := range sets {
 			for k := range c36Kinds {
 				emit(c36Case{Phase: "single", Kind: k, Flags: set})
 			}
 		}
-		if !c.Quick() {
-			// all ordered pairs of settings on the four-file tree (the quick
-			// pairs are not repeated), and every ordered pair of kinds as a
-			// two-file tree under the quick pairs
-			var rest [][2][]string
-			for _, p := range heteroAll[len(heteroQuick):] {
-				rest = append(rest, p)
-			}
-			emitHetero(four, rest)
-			for ka := range c36Kinds {
-				for kb := range c36Kinds {
-					emitHetero([]c36File{{ka, "a"}, {kb, "b"}}, heteroQuick)
-				}
-			}
-		}
 		// multisets of kinds in non-decreasing order x directory placements
 		var kinds []int
-		var rec func(min int)
 		emitTree := func() {
 			n := len(kinds)
 			for m := 0; m < 1<<(n-1); m++ {
@@ -1049,20 +1043,41 @@ func c36(c *vc.Ctx) {
 				}
 			}
 		}
-		rec = func(min int) {
-			if len(kinds) > 0 {
+		var rec func(min, lo, hi int)
+		rec = func(min, lo, hi int) {
+			if len(kinds) >= lo {
 				emitTree()
 			}
-			if len(kinds) == maxFiles {
+			if len(kinds) == hi {
 				return
 			}
 			for k := min; k < len(c36Kinds); k++ {
 				kinds = append(kinds, k)
-				rec(k)
+				rec(k, lo, hi)
 				kinds = kinds[:len(kinds)-1]
 			}
 		}
-		rec(0)
+		small := 2
+		if maxFiles < small {
+			small = maxFiles
+		}
+		rec(0, 1, small)
+		if !c.Quick() {
+			// 6. the rest of the shebang space; all ordered pairs of settings
+			// on the four-file tree (the quick pairs are not repeated) and
+			// every ordered pair of kinds as a two-file tree under the quick
+			// pairs; 7. trees of three and four files
+			for _, t := range shebang(func(sc c36ShebangCase) bool { return !isQuick(sc) }) {
+				emit(t)
+			}
+			emitHetero(four, heteroAll[len(heteroQuick):])
+			for ka := range c36Kinds {
+				for kb := range c36Kinds {
+					emitHetero([]c36File{{ka, "a"}, {kb, "b"}}, heteroQuick)
+				}
+			}
+			rec(0, small+1, maxFiles)
+		}
 	}, judge)
 	c.Count("shfmt_executions", int(c36Execs.Load()))
 	c.Count("flag_sets", len(sets))
